@@ -31,6 +31,12 @@ type SpecCase struct {
 
 type GhostVar struct{ Name, Type string }
 
+type AfterStmt struct {
+	Callee, Ghost string
+	E             Expr
+	Tags          []string
+}
+
 type TaintDecl struct {
 	E    Expr
 	Bits uint8
@@ -55,6 +61,7 @@ type Contract struct {
 	GhostIncSite []string // counters incremented only where an interface contract is applied at a dynamic call
 	GhostSet map[string]int64 // ghost variables set on entry
 	Implements []string       // interface-method contracts whose clauses this function inherits
+	Afters   []AfterStmt       // auxiliary ghost assignments after calls (caller-owned history variables)
 	Taints   []TaintDecl       // taint sources: locations labelled at entry (C18)
 	TaintAware bool            // the contract states taint explicitly (no default propagation)
 	Alias    map[string]int    // extra parameter names (of inherited clauses) -> parameter index
@@ -207,7 +214,7 @@ func (e *Engine) loadContractFile(path, pkgShort string) error {
 		lines = append(lines, logical{t, i + 1})
 	}
 	isStart := func(s string) bool {
-		for _, k := range []string{"func ", "trusted func ", "interface ", "spec ", "ghostvar ", "propset ", "requires", "ensures", "modifies", "loop ", "ghost ", "also", "pure", "noinline", "inline", "taints", "ghostinc_callsite ", "ghostinc ", "ghostset ", "implements ", "unverified", "witness ", "lemma ", "assert", "at "} {
+		for _, k := range []string{"func ", "trusted func ", "interface ", "spec ", "ghostvar ", "propset ", "requires", "ensures", "modifies", "loop ", "ghost ", "also", "pure", "noinline", "inline", "taints", "before", "after", "ghostinc_callsite ", "ghostinc ", "ghostset ", "implements ", "unverified", "witness ", "lemma ", "assert", "at "} {
 			if strings.HasPrefix(s, k) {
 				return true
 			}
@@ -325,6 +332,50 @@ func (e *Engine) loadContractFile(path, pkgShort string) error {
 				return fmt.Errorf("%s:%d: taints: %v", path, l.line, err)
 			}
 			cur.Taints = append(cur.Taints, TaintDecl{ex, uint8(bits), ttags})
+		case strings.HasPrefix(t, "after"):
+			// after[Tags] <callee key suffix> : <ghost> = <expr> — auxiliary (caller-owned) ghost
+			// assignment executed after every call of that callee; ret0.. name its results, arg0.. its arguments
+			rest := strings.TrimSpace(t[len("after"):])
+			var atags []string
+			if strings.HasPrefix(rest, "[") {
+				if j := strings.Index(rest, "]"); j > 0 {
+					atags = parseTags(rest[1:j])
+					rest = strings.TrimSpace(rest[j+1:])
+				}
+			}
+			j := strings.Index(rest, " : ")
+			k := strings.Index(rest, " = ")
+			if j < 0 || k < j || cur == nil {
+				return fmt.Errorf("%s:%d: after needs '<callee> : <ghost> = <expr>'", path, l.line)
+			}
+			callee := strings.TrimSpace(rest[:j])
+			gname := strings.TrimPrefix(strings.TrimSpace(rest[j+3:k]), "ghost.")
+			ex, err := parseExpr(rest[k+3:])
+			if err != nil {
+				return fmt.Errorf("%s:%d: after: %v", path, l.line, err)
+			}
+			cur.Afters = append(cur.Afters, AfterStmt{Callee: callee, Ghost: gname, E: ex, Tags: atags})
+		case strings.HasPrefix(t, "before"):
+			// before[Tags] <callee key suffix> : <expr> — proof obligation at every call of that callee
+			rest := strings.TrimSpace(t[len("before"):])
+			var btags []string
+			if strings.HasPrefix(rest, "[") {
+				if j := strings.Index(rest, "]"); j > 0 {
+					btags = parseTags(rest[1:j])
+					rest = strings.TrimSpace(rest[j+1:])
+				}
+			}
+			j := strings.Index(rest, " : ")
+			if j < 0 || cur == nil {
+				return fmt.Errorf("%s:%d: before needs '<callee> : <expr>'", path, l.line)
+			}
+			callee := strings.TrimSpace(rest[:j])
+			ex, err := parseExpr(rest[j+3:])
+			if err != nil {
+				return fmt.Errorf("%s:%d: before: %v", path, l.line, err)
+			}
+			ord++
+			cur.Asserts[callee] = append(cur.Asserts[callee], &Clause{Tags: btags, E: ex, Text: rest[j+3:], Ord: ord, File: path, Line: l.line})
 		case strings.HasPrefix(t, "implements "):
 			cur.Implements = append(cur.Implements, strings.TrimSpace(t[len("implements "):]))
 		case strings.HasPrefix(t, "ghostset "):
